@@ -28,6 +28,12 @@ pub struct MockApi {
     pub substates: BTreeMap<NodeId, IndexedScryptoValue>,
     pub handles: Vec<NodeId>,
     pub outer_object: Option<GlobalAddress>,
+    /// answers keyed by (receiver node, method), consulted first and not consumed
+    pub per_node: BTreeMap<(NodeId, String), Vec<u8>>,
+    /// handles passed to kernel_close_substate
+    pub closed: Vec<u32>,
+    /// outer object (resource manager) per node, consulted before `outer_object`
+    pub outer_objects: BTreeMap<NodeId, GlobalAddress>,
 }
 
 impl MockApi {
@@ -36,6 +42,9 @@ impl MockApi {
     }
     fn pop(&mut self, receiver: &NodeId, method: &str, args: Vec<u8>) -> Result<Vec<u8>, RuntimeError> {
         self.calls.push((*receiver, method.to_string(), args));
+        if let Some(v) = self.per_node.get(&(*receiver, method.to_string())) {
+            return Ok(v.clone());
+        }
         if let Some(v) = self.answers.get_mut(method).and_then(|q| q.pop_front()) {
             return Ok(v);
         }
@@ -246,6 +255,9 @@ impl SystemObjectApi<RuntimeError> for MockApi {
     }
     fn get_outer_object(&mut self, node_id: &NodeId) -> Result<GlobalAddress, RuntimeError> {
         // the outer object of a proof / bucket / vault node is its resource manager: the scenario's resource
+        if let Some(a) = self.outer_objects.get(node_id) {
+            return Ok(*a);
+        }
         Ok(self.outer_object.unwrap_or(XRD.into()))
     }
     fn allocate_global_address( &mut self, blueprint_id: BlueprintId, ) -> Result<(GlobalAddressReservation, GlobalAddress), RuntimeError> {
@@ -316,6 +328,7 @@ impl radix_engine::kernel::kernel_api::KernelSubstateApi<()> for MockApi {
         Ok(())
     }
     fn kernel_close_substate(&mut self, lock_handle: u32) -> Result<(), RuntimeError> {
+        self.closed.push(lock_handle);
         Ok(())
     }
     fn kernel_read_substate(&mut self, lock_handle: u32) -> Result<&IndexedScryptoValue, RuntimeError> {
